@@ -450,7 +450,8 @@ class TreeSim(taps.Sim):
                 if isz(n.last_notl) and isz(nv):
                     if abs(pnl) > band and changed and n.last_notl == 0.0 and nv == 0.0:
                         worst = "must"
-                    elif not isz(pnl):
+                    elif not isz(pnl) or self.touched(n):
+                        # (the implementation's pnl may carry float residue of the day's activity where the model's is exactly zero)
                         worst = worst or "either"
                 elif abs(n.last_notl) < band and abs(nv) < band and not isz(pnl):
                     worst = worst or "either"
